@@ -511,14 +511,7 @@ class Context:
             v, _ = self.check(nf, self.t_claim, tag='claim-' + name if DUMP_DIR else '')
             rec['verdict'] = v
             if v == 'sat':
-                m = None
-                if self.robust:
-                    vr, m = self.full_model(And.make([nf] + self.robust), self.t_claim)
-                    if vr != 'sat':
-                        m = None
-                if m is None:
-                    _, m = self.full_model(nf)
-                rec['model'] = self._input_values(m or {})
+                rec['model'] = self._input_values(self._best_model(nf) or {})
         self.claims.append(rec)
         return rec['verdict'] == 'unsat'
 
@@ -537,6 +530,37 @@ class Context:
         if m is not None:
             rec['model'] = self._input_values(m)
         self.claims.append(rec)
+
+    def _nice(self):
+        """Preference for replayable models: every real input is 0 or has a
+        magnitude in [2^-10, 2^10] (used only when a model is extracted)."""
+        fs = []
+        lo = Poly.const(Fraction(1, 1024))
+        hi = Poly.const(1024)
+        for name in self.input_order:
+            v = self.inputs[name]
+            if vsort(v) != 'R':
+                continue
+            x = Poly.var(v)
+            fs.append(Or.make([Cmp.make(x, '=='),
+                               And.make([Cmp.make(lo - x, '<='), Cmp.make(x - hi, '<=')]),
+                               And.make([Cmp.make(x + lo, '<='), Cmp.make(Poly.const(0) - x - hi, '<=')])]))
+        return fs
+
+    def _best_model(self, bad):
+        """A model of path condition + bad, preferring replayable ones: margins on
+        exponent comparisons and moderate input magnitudes first."""
+        tries = []
+        if self.robust:
+            tries.append(self.robust + self._nice())
+            tries.append(list(self.robust))
+        tries.append(self._nice())
+        for extra in tries:
+            v, m = self.full_model(And.make([bad] + extra), self.t_branch * 2)
+            if v == 'sat':
+                return m
+        v, m = self.full_model(bad)
+        return m if v == 'sat' else None
 
     def _input_values(self, m):
         out = {}
@@ -561,8 +585,7 @@ class Context:
         else:
             rec = {'kind': kind, 'verdict': v, 'what': what}
             if v == 'sat':
-                _, m = self.full_model(bad)
-                rec['model'] = self._input_values(m or {})
+                rec['model'] = self._input_values(self._best_model(bad) or {})
             self.obligations.append(rec)
             vg, _ = self.check(good)
             if vg == 'unsat':
